@@ -36,7 +36,7 @@ pub fn gen(rng: &mut Rng, tier: Tier, out: &mut Vec<String>) {
     let n = if tier == Tier::Quick { 1200 } else { 40_000 };
     for i in 0..n {
         let door = ['r', 'b', 'B', 'r'][i % 4];
-        let tgt = if i % 7 == 6 { "cb" } else { "fb" };
+        let tgt = match i % 14 { 6 => "cb", 13 => "cs", 3 | 10 => "fs", _ => "fb" };
         let k = 1;
         let near = *rng.pick(&[0.1f32, 1.0, 0.5, 2.0, 10.0, 0.001, 0.01, 1e4, 1e6, 1e-6]);
         let far = near * *rng.pick(&[2.0f32, 10.0, 100.0, 1000.0]);
